@@ -92,6 +92,10 @@ type Layout struct {
 	// AlignBlock bytes (its first AlignSplit+1 bytes before the boundary): readers that work block-wise see it in two pieces
 	AlignBlock int `json:"align_block,omitempty"`
 	AlignSplit int `json:"align_split,omitempty"`
+	// TextBlanks: blanks between literal line text and a trailing comment, and trailing blanks after line text. The parsed
+	// tree keeps such blanks in the text token (the repository's own tree snapshots pin that), the rendered element is
+	// stripped of them: with this flag only what the dialogue shows is compared, not the trees.
+	TextBlanks bool `json:"text_blanks,omitempty"`
 	longDone   [2]bool
 	pos        int
 	used       map[string]int
@@ -249,12 +253,16 @@ func (p *printer) trailing(textMode bool) string {
 	switch p.lay.next("trailing") % 8 {
 	case 1:
 		p.lay.note("trailing-comment")
+		if textMode && p.lay.TextBlanks {
+			p.lay.note("blank-before-trailing-comment")
+			return "  // trailing comment"
+		}
 		if textMode {
 			return "// trailing comment"
 		}
 		return " // trailing comment"
 	case 2:
-		if !textMode {
+		if !textMode || p.lay.TextBlanks {
 			p.lay.note("trailing-blanks")
 			return "  "
 		}
